@@ -62,10 +62,11 @@ func (m ClientState) CheckHeaderAndUpdateState(
 	if pruneError != nil {
 		return nil, nil, pruneError
 	}
-	// if pruneHeight is set, delete consensus state and metadata
+	// if pruneHeight is set, delete the consensus state. The recent-signer record of that height is
+	// not touched: it is dropped by update() once the height leaves the recents window, and
+	// verifySeal needs it until then.
 	if pruneHeight != nil {
 		deleteConsensusState(store, pruneHeight)
-		DeleteSigner(store, clienttypes.NewHeight(pruneHeight.GetRevisionNumber(), pruneHeight.GetRevisionHeight()))
 	}
 
 	newClientState, consensusState, err := update(cdc, store, &m, bscHeader)
